@@ -323,6 +323,27 @@ def rule_tree_predicate(ctx, rule):
                         a, b = render(x['inner'][0]), render(x['inner'][1])
                         if b.startswith('REB_GRAVITY_') or b.startswith('REB_COLLISION_'):
                             out.add('%s==%s' % (a, b))
+                if not out:
+                    # the complement, "no module uses the tree": a conjunction of != tests names the same set of modules
+                    neg = set()
+                    ok = True
+
+                    def conj(x):
+                        nonlocal ok
+                        x = strip(x, casts=True)
+                        if x.get('kind') == 'BinaryOperator' and x.get('opcode') == '&&':
+                            conj(x['inner'][0]); conj(x['inner'][1])
+                        elif x.get('kind') == 'BinaryOperator' and x.get('opcode') == '!=':
+                            a, b = render(x['inner'][0]), render(x['inner'][1])
+                            if b.startswith('REB_GRAVITY_') or b.startswith('REB_COLLISION_'):
+                                neg.add('%s==%s' % (a, b))
+                            else:
+                                ok = False
+                        else:
+                            ok = False
+                    conj(cond)
+                    if ok and neg:
+                        out = neg
                 return out
 
             def callees(node):
